@@ -21,6 +21,7 @@ pub mod c14;
 pub mod c15;
 pub mod c16;
 pub mod c18;
+pub mod c19;
 pub mod crash;
 pub mod sched;
 
@@ -42,6 +43,7 @@ pub fn check(prop: &str, tier: Tier) -> i32 {
 		"C15" => c15::check(tier),
 		"C16" => c16::check(tier),
 		"C18" => c18::check(tier),
+		"C19" => c19::check(tier),
 		_ => {
 			eprintln!("machinery: unknown property {prop}");
 			2
@@ -78,6 +80,7 @@ pub fn replay(prop: &str, file: &str) -> i32 {
 		"C15" => c15::replay(&r),
 		"C16" => c16::replay(&r),
 		"C18" => c18::replay(&r),
+		"C19" => c19::replay(&r),
 		_ => {
 			eprintln!("machinery: no replay for {prop}");
 			2
@@ -89,6 +92,7 @@ pub fn worker(kind: &str, args: &[String]) -> i32 {
 	match kind {
 		"trace" => crate::crashx::worker_trace(&args[0]),
 		"c16" => c16::worker(args),
+		"hold" => c19::worker_hold(&args[0]),
 		_ => 2,
 	}
 }
